@@ -658,11 +658,22 @@ def run(ctx):
             ctx.attempt(c13.rule5_finisher, ctx, fl)
         with ctx.shared({'C01.1': 'C12.8'}, keep=lambda k: 'detachstate' in k):
             ctx.attempt(c01.rule1_attr, ctx, fl)
+        with ctx.shared({'C13.4': 'C12.9'}, floor=7,
+                        doc='a timed join that released the record says so (shared with C13.4): myth_timedjoin_body returns 0 exactly after a '
+                            'successful try and its "busy" code never after a try whose result was not examined - told "busy", the caller '
+                            'keeps the handle of a record that is already on the free list, the next creation reuses it and the caller\'s '
+                            'later join releases it a second time'):
+            vt = ctx.view(NATIVE, roots=['myth_join_body', 'myth_tryjoin_body', 'myth_detach_body', 'myth_timedjoin_body'],
+                          stops=('myth_queue_push', 'myth_queue_pop', DESC_FREE, 'myth_get_current_env_noinline', 'myth_tryjoin_body',
+                                 'myth_timespec_gt', 'hr_gettime', 'myth_yield_ex_body') + lib.SPIN_STOPS, flavour=fl)
+            ctx.attempt(c13.rule4_timed, ctx, vt)
 
 
 SCHED = 'src/myth_sched_func.h'
 MISC = 'src/myth_misc_func.h'
 MUTANTS = [
+    {'name': 'timed join examines its try only after the deadline test: busy is reported for a record already released (seed6 C12/m1)', 'expect': 'C12.9',
+     'edits': [(SCHED, "      if (myth_timespec_gt(tp, abstime)) return EBUSY;\n      if (myth_tryjoin_body(th, result) == 0) {\n\treturn 0;\n      } else {", "      int busy_ = myth_tryjoin_body(th, result);\n      if (myth_timespec_gt(tp, abstime)) return EBUSY;\n      if (busy_ == 0) {\n\treturn 0;\n      } else {")]},
     {'name': 'finisher touches its record after publishing FREE_READY2 and unlocking (hand mutant r6)', 'expect': 'C12.2',
      'edits': [('src/myth_sched_func.h', "    this_thread->status=MYTH_STATUS_FREE_READY2;\n    myth_spin_unlock_body(&this_thread->lock);\n#endif\n  }\n  env->this_thread = next_thread;", "    this_thread->status=MYTH_STATUS_FREE_READY2;\n    myth_spin_unlock_body(&this_thread->lock);\n#endif\n    if (this_thread->cancelled) this_thread->cancelled = 0;\n  }\n  env->this_thread = next_thread;")]},
     {'name': 'size-class index rounded down (seed5 C12/m2)', 'expect': 'C12.4',
